@@ -27,7 +27,12 @@ import (
 //	    | foreach 1 as $u (.; B; T)         extract clause of a foreach over one fork-free value
 //	    | def g: ...; g | T                 local definitions (helpers, inner tail-recursive loops,
 //	                                        closures over bound variables, unused definitions calling f)
+//	    | try error catch (T)               catch clause (the state travels as the error value)
 //	    | (T)
+//
+// With probability 1/4 the definition is nested in `def outer(cc; $kk)`: the
+// condition may then be the closure parameter cc and the step may add $kk
+// (the shape of the built-in while / until).
 //
 // Not generated because they are not tail positions (a fork, try, label or
 // caller frame outlives the call): the left side of `,` and `//`, `try T`,
@@ -54,6 +59,8 @@ type tg struct {
 	vars    []string
 	tickAt  int
 	kinds   map[string]bool
+	outer   bool
+	ccText  string // condition passed for the closure parameter cc
 }
 
 func (g *tg) pick(label string, xs []string) string {
@@ -109,6 +116,12 @@ func condList(shape int) []string {
 
 func (g *tg) cond() string {
 	xs := condList(g.shape)
+	if g.outer && rapid.Bool().Draw(g.t, "cc") {
+		if g.ccText == "" {
+			g.ccText = g.pick("cctext", xs)
+		}
+		return "cc"
+	}
 	switch g.shape {
 	case 0:
 		xs = g.withVar(xs, func(v string) []string { return []string{v + " < %M%", "[" + v + "] | .[0] < %M%"} })
@@ -143,6 +156,9 @@ func stepList(shape int) []string {
 
 func (g *tg) step() string {
 	xs := stepList(g.shape)
+	if g.outer {
+		xs = append(append([]string{}, xs...), []string{". + $kk", ".[0] += $kk", ".i += $kk"}[g.shape], []string{"$kk + .", "[.[0] + $kk, .[1]]", "{i: (.i + $kk), a: .a}"}[g.shape])
+	}
 	switch g.shape {
 	case 0:
 		xs = g.withVar(xs, func(v string) []string { return []string{v + " + 1", "1 + " + v} })
@@ -249,9 +265,9 @@ func (g *tg) tail(depth int, guarded bool) string {
 	if depth <= 0 {
 		return g.call(guarded)
 	}
-	kinds := []string{"call", "if", "if", "elif", "split", "comma", "comma", "pipe", "pipe", "local", "local", "paren", "alt", "alt", "bind", "bind", "fx"}
+	kinds := []string{"call", "if", "if", "elif", "split", "comma", "comma", "pipe", "pipe", "local", "local", "paren", "catch", "alt", "alt", "bind", "bind", "fx"}
 	if g.pure {
-		kinds = kinds[:12]
+		kinds = kinds[:13]
 	}
 	k := g.pick("node", kinds)
 	g.kinds[k] = true
@@ -282,6 +298,8 @@ func (g *tg) tail(depth int, guarded bool) string {
 		return "(" + g.balanced() + " | " + g.tail(depth-1, guarded) + ")"
 	case "paren":
 		return "(" + g.tail(depth-1, guarded) + ")"
+	case "catch": // the catch clause runs after the try fork is gone; error(.) hands the state over
+		return "try error catch (" + g.tail(depth-1, guarded) + ")"
 	case "fx": // extract clause of a foreach over a single, fork-free value
 		g.nv++
 		return fmt.Sprintf("(foreach %s as $u%d (.; %s; %s))", g.pick("fxgen", []string{"1", ".", "null", "\"k\""}), g.nv, g.balanced(), g.tail(depth-1, guarded))
@@ -391,6 +409,7 @@ func genTailRec(t *rapid.T) (progCase, []string) {
 	g.hoist = rapid.IntRange(0, 2).Draw(t, "hoist")
 	g.hoistAt = rapid.IntRange(0, 3).Draw(t, "hoistAt")
 	g.tickAt = rapid.IntRange(0, 2).Draw(t, "tickAt")
+	g.outer = rapid.IntRange(0, 3).Draw(t, "outer") == 0
 	depth := rapid.IntRange(0, 4).Draw(t, "depth")
 	body := g.tail(depth, false)
 	if g.tickAt == 0 {
@@ -399,6 +418,9 @@ func genTailRec(t *rapid.T) (progCase, []string) {
 	init := []string{"0", "[0, 0]", "{i: 0, a: 0}"}[g.shape]
 	cons := consumers[rapid.IntRange(0, len(consumers)-1).Draw(t, "consumer")]
 	var sb strings.Builder
+	if g.outer {
+		sb.WriteString("def outer(cc; $kk): ")
+	}
 	for _, d := range g.top {
 		sb.WriteString(d + " ")
 	}
@@ -407,13 +429,24 @@ func genTailRec(t *rapid.T) (progCase, []string) {
 		sb.WriteString(d + " ")
 	}
 	sb.WriteString(body + "; ")
-	sb.WriteString(strings.ReplaceAll(cons, "X", init+" | f"))
+	if g.outer {
+		if g.ccText == "" {
+			g.ccText = "true"
+		}
+		sb.WriteString(init + " | f; ")
+		sb.WriteString(strings.ReplaceAll(cons, "X", "outer("+g.ccText+"; 1)"))
+	} else {
+		sb.WriteString(strings.ReplaceAll(cons, "X", init+" | f"))
+	}
 	n := drawN(t)
 	c := progCase{Prog: sb.String(), N: n, Mode: "tick"}
 	c.Heap = n >= 20000 && rapid.IntRange(0, 3).Draw(t, "heap") == 0
 	classes := []string{fmt.Sprintf("shape/%d", g.shape), fmt.Sprintf("tick-at/%d", g.tickAt), fmt.Sprintf("depth/%d", depth), "consumer/" + cons}
 	if g.pure {
 		classes = append(classes, "variable-free-body")
+	}
+	if g.outer {
+		classes = append(classes, "nested-in-function-with-parameters")
 	}
 	var ks []string
 	for k := range g.kinds {
@@ -431,7 +464,7 @@ func genTailRec(t *rapid.T) (progCase, []string) {
 
 func drawN(t *rapid.T) int {
 	if rec != nil && rec.Thorough() {
-		return rapid.SampledFrom([]int{2000, 2000, 2000, 2000, 20000, 20000, 100000}).Draw(t, "n")
+		return rapid.SampledFrom([]int{2000, 2000, 2000, 2000, 2000, 2000, 2000, 2000, 20000, 20000, 20000, 100000}).Draw(t, "n")
 	}
 	return rapid.SampledFrom([]int{2000, 2000, 2000, 2000, 2000, 2000, 2000, 20000}).Draw(t, "n")
 }
